@@ -145,6 +145,18 @@ def run_case(rec, rng, rngkey=None):
     # leaf type tuple[int, int] - then the candidate's leaves are 2-tuples, which are leaves for
     # the leaf-type-aware flattening but would be containers for a naive one
     lt = rng.choice(("int", "int", "int", "any", "pair", "pair"))
+    if lt == "any" and rng.random() < 0.5:
+        # a registered PyTree node that LOOKS like an array (a NamedTuple with .shape and .dtype, like a quantised
+        # or sparse wrapper): for the structure it is a node with two children, as jax says - as the whole
+        # candidate or somewhere inside it
+        from ..model.leaftypes import NodeArr
+
+        wrap = lambda: NodeArr(real.np_array((2,)), 0)
+        if rng.random() < 0.5:
+            x = wrap()
+        else:
+            x = GT.map_leaves(x, lambda l: wrap() if rng.random() < 0.4 else l, is_leaf=isl)
+        rec.count("candidates_with_arraylike_node")
     if lt == "pair":
         x = GT.map_leaves(x, lambda l: (l, l + 1) if isinstance(l, int) and not isinstance(l, bool) else l, is_leaf=isl)
     leaftype = {"int": int, "any": __import__("typing").Any, "pair": tuple[int, int]}[lt]
@@ -189,7 +201,7 @@ def run_case(rec, rng, rngkey=None):
         rec.count("form.compose")
     if has(x, lambda y: y is None):
         rec.count("cand.none_nodes")
-    if has(x, lambda y: y in ((), [], {}) and y is not None and not isinstance(y, int)):
+    if has(x, lambda y: type(y) in (tuple, list, dict) and len(y) == 0):
         rec.count("cand.empty_containers")
     if got != exp:
         kind = "prefix" if form.endswith("...") else "suffix" if form.startswith("...") else "compose" if " " in form else "plain"
